@@ -39,7 +39,7 @@ func (w *RecursiveWatcher) Loop() { w.loop() }
     },
     'lsp': {
         'pkg': 'zzverif/worlds/lsp',
-        'rewrite': [('lsp/jsonrpc2', 'sync'), ('cmd/templ/lspcmd/proxy', 'sync'), ('lsp/protocol', 'sync')],
+        'rewrite': [('lsp/jsonrpc2', 'sync'), ('cmd/templ/lspcmd/proxy', 'sync,os'), ('lsp/protocol', 'sync')],
         'closeyield': ['lsp/jsonrpc2'],
         'extra_dirs': ['simnet'],
     },
